@@ -52,13 +52,14 @@ type Budget struct {
 	LiveProgs  int
 	MCTimeout  time.Duration
 	Workers    int
+	MCSize     int // largest program (probe instances) that is model-checked exhaustively
 }
 
 func budget(tier string) Budget {
 	if tier == "thorough" {
-		return Budget{GenProgs: 400, MCProgs: 160, DFS: 300, Seeds: 6, LiveProgs: 40, MCTimeout: 12 * time.Minute, Workers: runtime.NumCPU()}
+		return Budget{GenProgs: 400, MCProgs: 160, DFS: 300, Seeds: 6, LiveProgs: 40, MCTimeout: 12 * time.Minute, Workers: runtime.NumCPU(), MCSize: 10}
 	}
-	return Budget{GenProgs: 36, MCProgs: 30, DFS: 40, Seeds: 2, LiveProgs: 10, MCTimeout: 3 * time.Minute, Workers: runtime.NumCPU()}
+	return Budget{GenProgs: 36, MCProgs: 30, DFS: 40, Seeds: 2, LiveProgs: 10, MCTimeout: 3 * time.Minute, Workers: runtime.NumCPU(), MCSize: 7}
 }
 
 type replayBundle struct {
@@ -161,7 +162,7 @@ func CheckExec(prop, tier string) int {
 		if len(mcProgs) >= nMC {
 			break
 		}
-		if Size(progs[i]) <= 9 && !IsCyclic(progs[i]) {
+		if Size(progs[i]) <= bud.MCSize && !IsCyclic(progs[i]) {
 			mcProgs = append(mcProgs, progs[i])
 		}
 	}
@@ -325,6 +326,66 @@ func CheckExec(prop, tier string) int {
 		}
 	}
 
+	// ---- CLI leg (C03, C13): the exit status of the task binary, with and without --exit-code, must be
+	// one the in-process runs of the same program produced (cmd/task maps the error to the status)
+	cliRuns, cliBad := 0, 0
+	if prop == "C03" || prop == "C13" {
+		type rc struct{ code, xcode int }
+		for i, wr := range results {
+			if wr.Crash != "" || IsCyclic(progs[i]) || len(progs[i].Roots) != 1 {
+				continue
+			}
+			seenRC := map[rc]bool{}
+			dl := false
+			for _, r := range wr.Runs {
+				for _, e := range r.Trace {
+					if e.E == "R" {
+						seenRC[rc{e.Code, e.XCode}] = true
+					}
+					if e.E == "DL" {
+						dl = true
+					}
+				}
+			}
+			if dl || len(seenRC) == 0 || (i >= nCore && i%3 != 0) {
+				continue
+			}
+			for _, x := range []bool{false, true} {
+				code, out, err := RunCLI(progs[i], x)
+				if err != nil {
+					continue
+				}
+				cliRuns++
+				ok := false
+				for k := range seenRC {
+					want := k.code
+					if x {
+						want = k.xcode
+					}
+					if want == code {
+						ok = true
+					}
+				}
+				if !ok {
+					cliBad++
+					sig := fmt.Sprintf("cli-exit-status:exit-code-flag=%v", x)
+					seenSig[sig]++
+					if seenSig[sig] > 1 {
+						continue
+					}
+					if f := kf.Open(prop, sig); f != nil {
+						rp.KnownFinding(f)
+						continue
+					}
+					path := rep.WriteReplay(prop, map[string]any{"property": prop, "sig": sig, "program": progs[i], "taskfile": progs[i].Taskfile(), "exit_code_flag": x,
+						"cli_exit": code, "in_process_returns": fmt.Sprint(seenRC), "output": out})
+					rp.Note("violation %s/%s on program %s: the CLI exits %d, the Executor returned %v", prop, sig, progs[i].ID, code, seenRC)
+					rp.Violation(path)
+				}
+			}
+		}
+	}
+
 	// ---- evidence
 	if len(samples) == 0 && len(traces) > 0 {
 		samples = append(samples, map[string]any{"trace": TraceString(traces[0].Evs)})
@@ -340,7 +401,7 @@ func CheckExec(prop, tier string) int {
 			"mc_design_ok": mc.OK, "mc_timed_out": mc.TimedOut, "liveness_states": live.Distinct, "liveness_ok": live.OK,
 			"conformance_traces": len(confTraces), "conformance_accepted": mv.Accepted, "conformance_rejected": len(mv.Rejected), "conformance_states": mv.States,
 			"props_eval_states": pv.States,
-			"violation_signatures": seenSig, "harness_errors": harnessErrs,
+			"violation_signatures": seenSig, "harness_errors": harnessErrs, "cli_runs": cliRuns, "cli_mismatches": cliBad,
 			"exhaustive": false,
 		},
 		Assumptions: []string{
